@@ -1023,4 +1023,10 @@ def pol_update_once(ctx):
     return res
 
 
+# META update: declined clause 'mean-of-two-states identity' re-worded
+META['declined'] = [
+    'intensity values (the mean-of-two-states identity is decided structurally: PAIR-MEAN; one frame update per surface: POL-UPDATE-ONCE)' if _d.startswith('mean-of-two-states identity') else _d
+    for _d in META['declined']]
+
+
 RULES = [pair_mean, pol_update_once, pol_local_frame, coating_media, no_stale, pol_frames, fresnel, rotation_law, retarder, projectors, aoi]
